@@ -11,7 +11,7 @@ import (
 // access grants reach principals): afterwards nothing computed earlier is still taken as valid for the named
 // collections (and roles), whatever had already been invalidated before; nothing else about the principal changes.
 
-var vhInvalColls = base.ScopeAndCollectionNames{base.DefaultScopeAndCollectionName(), base.NewScopeAndCollectionName("s1", "c1")}
+var vhInvalColls = base.ScopeAndCollectionNames{base.DefaultScopeAndCollectionName(), base.NewScopeAndCollectionName("s1", "c1"), base.NewScopeAndCollectionName(base.DefaultScope, "c2")}
 
 func vhNondetTimedSet(name string) ch.TimedSet {
 	if vNondetBool() {
@@ -29,13 +29,21 @@ func vhNondetStoredUser(a *Authenticator, s *vhStore) *userImpl {
 		u.ChannelInvalSeq = vNondetU64()
 		vAssume(u.ChannelInvalSeq > 0)
 	}
-	if vNondetBool() {
-		ca := &CollectionAccess{Channels_: vhNondetTimedSet("B")}
+	for _, sc := range vhInvalColls[1:] {
 		if vNondetBool() {
-			ca.ChannelInvalSeq = vNondetU64()
-			vAssume(ca.ChannelInvalSeq > 0)
+			ca := &CollectionAccess{Channels_: vhNondetTimedSet("B")}
+			if vNondetBool() {
+				ca.ChannelInvalSeq = vNondetU64()
+				vAssume(ca.ChannelInvalSeq > 0)
+			}
+			if u.CollectionsAccess == nil {
+				u.CollectionsAccess = map[string]map[string]*CollectionAccess{}
+			}
+			if u.CollectionsAccess[sc.ScopeName()] == nil {
+				u.CollectionsAccess[sc.ScopeName()] = map[string]*CollectionAccess{}
+			}
+			u.CollectionsAccess[sc.ScopeName()][sc.CollectionName()] = ca
 		}
-		u.CollectionsAccess = map[string]map[string]*CollectionAccess{"s1": {"c1": ca}}
 	}
 	u.RolesSince_ = vhNondetTimedSet("r1")
 	if vNondetBool() {
@@ -63,7 +71,7 @@ func VHarness_C18_InvalidatePrincipal() {
 	pre := vhDeepSnapshot(vhNondetStoredUser(a, s)).(*userImpl)
 	inval := vNondetU64()
 	vAssume(inval > 0)
-	which := vNondetRange(0, 4)
+	which := vNondetRange(0, 5)
 	var err error
 	colls := vhInvalColls
 	switch which {
@@ -71,7 +79,10 @@ func VHarness_C18_InvalidatePrincipal() {
 		colls = vhInvalColls[:1]
 		err = a.InvalidateDefaultChannels("u1", true, inval)
 	case 4:
-		colls = vhInvalColls[1:]
+		colls = vhInvalColls[1:2]
+		err = a.InvalidateChannels("u1", true, colls, inval)
+	case 5: // a named collection in the default scope
+		colls = vhInvalColls[2:]
 		err = a.InvalidateChannels("u1", true, colls, inval)
 	case 0:
 		err = a.InvalidateRolesAndChannels("u1", colls, inval)
@@ -98,6 +109,18 @@ func VHarness_C18_InvalidatePrincipal() {
 	}
 	if which == 0 || which == 2 {
 		vAssert(post.RoleNames() == nil, "after invalidation no earlier computed roles are still valid")
+	}
+	// collections that were not named keep their state
+	for _, c := range vhInvalColls {
+		named := false
+		for _, n := range colls {
+			if n == c {
+				named = true
+			}
+		}
+		if !named || which == 2 {
+			vAssert((post.CollectionChannels(c.ScopeName(), c.CollectionName()) == nil) == (pre.CollectionChannels(c.ScopeName(), c.CollectionName()) == nil), "a collection that was not named keeps its computed channels")
+		}
 	}
 	// what was already invalid stays invalid
 	if pre.ChannelInvalSeq != 0 {
